@@ -15,6 +15,11 @@ def _timing(item):
     scn, base = item
     eph_only  = {f['name'] for f in scn['filters'] if f.get('sources') and all(e > 0 for _, e, _, _ in topo.sources_of(f))}
     bare      = {**scn, 'filters': [f for f in scn['filters'] if f['name'] not in eph_only]}
+
+    for i, f in enumerate(bare['filters']):      # a removed listener cannot stay a required output of the listener-free pipeline
+        if (req := (f.get('config') or {}).get('outputs_required')):
+            keep = ','.join(r for r in (x.strip() for x in req.split(',')) if r not in eph_only)
+            bare['filters'][i] = {**f, 'config': {**{k: v for k, v in f['config'].items() if k != 'outputs_required'}, **({'outputs_required': keep} if keep else {})}}
     bare.pop('faults', None)
     full      = {k: v for k, v in scn.items() if k != 'faults'}
     t_with    = oracles.sync_delivery_times(full, simnet.execute(full, (), base))
